@@ -618,6 +618,10 @@ fn run_unicode_data_generators_variant(dir: &Path, out: &Path, variant: u8) -> R
         gc.add(Box::new(ViramaTableGen::new("t_virama")));
         gc.add(Box::new(WidthMappingTableGen::new("t_width")));
         gc.add(Box::new(BidiClassGen::new("t_bidi")));
+        // the same categories once more under other names (a table is a view of the input, and two
+        // views of one category are a legitimate configuration)
+        gc.add(Box::new(UcdTableGen::new("Lu", "t_lu_again")));
+        gc.add(Box::new(UcdTableGen::new("Mn", "t_mn_again")));
         ucd_gen.add(Box::new(gc));
         gen.add(Box::new(ucd_gen));
         gen.generate_code().map_err(|e| e.to_string())?;
@@ -838,8 +842,8 @@ pub fn check_unicode_data_config(dir: &Path, items: &[Item], base: u32, n: u32, 
     for t in &tables {
         st.transitions += 1;
         let exp: Vec<Iv> = match t.name.as_str() {
-            "T_LU" => ivs(&|it| if BUNDLES[it.bundle as usize].0 == "Lu" { Some(None) } else { None }),
-            "T_MN" => ivs(&|it| if BUNDLES[it.bundle as usize].0 == "Mn" { Some(None) } else { None }),
+            "T_LU" | "T_LU_AGAIN" => ivs(&|it| if BUNDLES[it.bundle as usize].0 == "Lu" { Some(None) } else { None }),
+            "T_MN" | "T_MN_AGAIN" => ivs(&|it| if BUNDLES[it.bundle as usize].0 == "Mn" { Some(None) } else { None }),
             "T_ND" => ivs(&|it| if BUNDLES[it.bundle as usize].0 == "Nd" { Some(None) } else { None }),
             "T_ZS" => vec![],
             "T_VIRAMA" => ivs(&|it| if BUNDLES[it.bundle as usize].1 == 9 { Some(None) } else { None }),
@@ -881,8 +885,8 @@ pub fn check_unicode_data_config(dir: &Path, items: &[Item], base: u32, n: u32, 
         }
         check_table(&tt, &exp, &probes, &mk, st);
     }
-    if tables.len() != 8 {
-        st.violation("missing_tables", &mk, "8 tables".into(), format!("{} tables", tables.len()));
+    if tables.len() != 10 {
+        st.violation("missing_tables", &mk, "10 tables".into(), format!("{} tables", tables.len()));
     }
 }
 
@@ -1195,7 +1199,7 @@ pub fn run(_env: &Env, run: &Run) -> (Stats, Coverage) {
     st.sample(json!({"Scripts.txt": "0370..0371 ; P / 0372 ; P / 0373 ; Q (Q lines first)", "expected": "T_P = 0370-0372, T_Q = 0373, T_Z empty"}));
     st.sample(json!({"built": "all tables in OUT_DIR of precis-core and precis-profiles build scripts", "expected": "each denotes exactly what the repo's resource files assign, for every code point, and is binary-searchable"}));
     let cov = Coverage {
-        rule: format!("(a) every table the real build scripts just emitted (read from cargo's out_dir) x every code point, against an independent reader of the same input files; (b) every tiling of a {}-slot code-point window into {{gap, single entry, First/Last range}} with {} attribute bundles (gc/ccc/bidi/decomposition), at four window positions (0, mid-plane, ending at U+10FFFD, ending at U+10FFFE), through RustCodeGen+UcdFileGen+GeneralCategoryGen with UcdTableGen x4, UnassignedTableGen, ViramaTableGen, WidthMappingTableGen, BidiClassGen; (c) every assignment of {{none,P,Q}} to {} slots x every segmentation into single/range lines x both value-grouped orders and the fully reversed line order through UnicodeGen<Script> and, in rotation, the four other property-file types; (f) each compiled build script re-run under the default build environment and 13 single deviations from it (OPT_LEVEL 0/1/2/s/z, debug profile, debug info, 32-bit / big-endian / windows target, other working directory, Turkish locale, NUM_JOBS): every emitted file byte-identical to the real build; (e) output-side faults - device full, unwritable handle, and a file-size limit at every KiB below the complete output - after which the generators must not report success with an incomplete file; (d) race-detector pass: every pair of 15 generator / registry-parser pipelines (own inputs, own outputs) on two free-running threads under ThreadSanitizer, outputs compared with the single-threaded ones; oracle per table: denotation (merged intervals and values) equals what the input assigns, entries strictly increasing and disjoint, declared length = emitted length, and a binary search with the library's own expression over real precis_core::Codepoints finds exactly the members (window +-2 and far probes); bidi uses the library's default-L lookup semantics; non-trivial = inputs with at least one range and two entries / two lines", n, nb, pn),
+        rule: format!("(a) every table the real build scripts just emitted (read from cargo's out_dir) x every code point, against an independent reader of the same input files; (b) every tiling of a {}-slot code-point window into {{gap, single entry, First/Last range}} with {} attribute bundles (gc/ccc/bidi/decomposition), at four window positions (0, mid-plane, ending at U+10FFFD, ending at U+10FFFE), through RustCodeGen+UcdFileGen+GeneralCategoryGen with UcdTableGen x4 (+ two categories registered a second time under other names), UnassignedTableGen, ViramaTableGen, WidthMappingTableGen, BidiClassGen; (c) every assignment of {{none,P,Q}} to {} slots x every segmentation into single/range lines x both value-grouped orders and the fully reversed line order through UnicodeGen<Script> and, in rotation, the four other property-file types; (f) each compiled build script re-run under the default build environment and 13 single deviations from it (OPT_LEVEL 0/1/2/s/z, debug profile, debug info, 32-bit / big-endian / windows target, other working directory, Turkish locale, NUM_JOBS): every emitted file byte-identical to the real build; (e) output-side faults - device full, unwritable handle, and a file-size limit at every KiB below the complete output - after which the generators must not report success with an incomplete file; (d) race-detector pass: every pair of 15 generator / registry-parser pipelines (own inputs, own outputs) on two free-running threads under ThreadSanitizer, outputs compared with the single-threaded ones; oracle per table: denotation (merged intervals and values) equals what the input assigns, entries strictly increasing and disjoint, declared length = emitted length, and a binary search with the library's own expression over real precis_core::Codepoints finds exactly the members (window +-2 and far probes); bidi uses the library's default-L lookup semantics; non-trivial = inputs with at least one range and two entries / two lines", n, nb, pn),
         alphabet: json!({"bundles": BUNDLES.iter().take(nb as usize).map(|b| format!("{};{};{};{}", b.0, b.1, b.2, b.3)).collect::<Vec<_>>(), "window_bases": bases.iter().map(|b| format!("{:04X}", b)).collect::<Vec<_>>()}),
         bound_completed: format!("{} UnicodeData tilings x 4 positions; {} property-file configurations x 2 file types; built tables: all code points", nconf, npconf),
         exhaustive: false,
